@@ -52,6 +52,7 @@ def history(seed, length, source="dendrobine_mol2", kind="Molecule"):
     o0 = obs()
     ev.append({"ev": "load", "out": "ok", "atoms": o0["atoms"], "bonds": o0["bonds"], "obs": o0})
     translated = False
+    view_tags = []
     for _ in range(length):
         o = ad.observe()
         live = o["atoms"]
@@ -72,6 +73,10 @@ def history(seed, length, source="dendrobine_mol2", kind="Molecule"):
         ops += ["del_fail", "add_h"]
         if not translated and harness_live:
             ops += ["sub_translate"]
+            if ad.view is None:
+                ops += ["make_view"] * 2
+            elif all(t in live for t in view_tags):
+                ops += ["view_translate"] * 3
         op = rnd.choice(ops)
         if op == "add_atom":
             t = rnd.choice(free_extra); q = kind == "Molecule" and rnd.random() < 0.5
@@ -84,8 +89,10 @@ def history(seed, length, source="dendrobine_mol2", kind="Molecule"):
             y = rnd.choice(free_extra)
             if op == "append_bond2":
                 x = rnd.choice([t for t in free_extra if t != y])
-            else:
+            elif live:
                 x = rnd.choice(live)
+            else:
+                continue
             r = ad.apply({"act": "append_bond", "x": x, "y": y}); log("append_bond", r["out"], x=x, y=y)
         elif op == "connect":
             for _try in range(20):
@@ -142,6 +149,17 @@ def history(seed, length, source="dendrobine_mol2", kind="Molecule"):
             if cands and ok_all:
                 S = sorted(rnd.sample(cands, rnd.randint(1, min(5, len(cands)))))
                 r = ad.apply({"act": "sub_translate", "S": S}); log("sub_translate", r["out"], S=S)
+                translated = True
+        elif op == "make_view":
+            cands = [t for t, c in zip(live, o["coords"]) if t in ad.idx and c is not None and c.get("sh") == 0 and c.get("base") in ad.idx]
+            if cands:
+                view_tags = sorted(rnd.sample(cands, rnd.randint(1, min(6, len(cands)))))
+                r = ad.apply({"act": "make_view", "S": view_tags}); log("make_view", r["out"], S=view_tags)
+        elif op == "view_translate":
+            ok_all = all((c is None) or c.get("sh") == 0 for c in o["coords"])
+            ok_view = all(c is not None and c.get("base") in ad.idx for t, c in zip(live, o["coords"]) if t in view_tags)
+            if ok_all and ok_view:
+                r = ad.apply({"act": "view_translate"}); log("view_translate", r["out"], S=view_tags)
                 translated = True
         elif op == "clone":
             r = ad.apply({"act": "clone"}); log("clone", r["out"])
